@@ -265,7 +265,117 @@ func GenEngineScript(r *Rng, o EngineGenOpts, hist map[string]int) []string {
 	return out
 }
 
+// GenCrashScript: a short workload whose every I/O boundary becomes a crash point.
+// kind: "plain" (Put/Delete/Sync), "batch" (crash window inside Commit), "merge" (crash during
+// Merge and during the adopting Open).
+func GenCrashScript(r *Rng, kind string, hist map[string]int) []string {
+	var out []string
+	add := func(format string, a ...interface{}) { out = append(out, "E "+fmt.Sprintf(format, a...)) }
+	o := EngineGenOpts{BigVals: false, FixedIO: -1}
+	c := genCfg(r, o, hist)
+	if kind == "merge" {
+		c.fsize = r.Pick(64, 200, 700, 4096)
+	}
+	add("dir db")
+	add("open %s", c)
+	mut := func() {
+		x := r.Intn(10)
+		switch {
+		case x < 6:
+			add("put %s %s", engKeys[r.Intn(5)], genEngVal(r, o, c, hist))
+		case x < 8:
+			add("del %s", engKeys[r.Intn(5)])
+		case x < 9:
+			add("sync")
+		default:
+			add("get %s", engKeys[r.Intn(5)])
+		}
+	}
+	batch := func() {
+		add("batch %d", r.Intn(2))
+		nb := 1 + r.Intn(6)
+		if r.Chance(1, 4) {
+			nb = 8 + r.Intn(20)
+		}
+		for j := 0; j < nb; j++ {
+			if r.Chance(3, 4) {
+				add("bput %s %s", engKeys[r.Intn(6)], genEngVal(r, o, c, hist))
+			} else {
+				add("bdel %s", engKeys[r.Intn(6)])
+			}
+		}
+		add("commit")
+		hist["crash_batch"]++
+	}
+	for i := r.Intn(6); i > 0; i-- {
+		mut()
+	}
+	if kind != "plain" && r.Chance(1, 2) {
+		batch()
+	}
+	add("mark")
+	n := 2 + r.Intn(8)
+	for i := 0; i < n; i++ {
+		if kind == "batch" && (i == 0 || r.Chance(1, 3)) {
+			batch()
+		} else {
+			mut()
+		}
+	}
+	prop := "C03"
+	if kind == "batch" {
+		prop = "C04"
+	}
+	if kind == "merge" {
+		add("merge")
+		for i := r.Intn(3); i > 0; i-- {
+			mut()
+		}
+		prop = "C07"
+		hist["crash_merge"]++
+	}
+	c2 := genCfg(r, o, hist)
+	add("crashscan %s %s", c2, prop)
+	add("dump")
+	add("close")
+	if kind == "merge" {
+		// the adopting Open, every step of it a crash point
+		add("mark")
+		c3 := genCfg(r, o, hist)
+		add("open %s", c3)
+		add("crashscan %s C07", genCfg(r, o, hist))
+		add("dump")
+		add("files")
+		add("close")
+		add("open %s", genCfg(r, o, hist))
+		add("dump")
+		add("close")
+	}
+	hist["crash_"+kind]++
+	return out
+}
+
 func init() {
+	extraCommands["crashgen"] = func(args []string) {
+		fs := newFlagSet("crashgen")
+		seed := fs.Uint64("seed", 1, "seed")
+		n := fs.Int("n", 50, "scenarios")
+		out := fs.String("out", "", "output")
+		histp := fs.String("hist", "", "histogram output")
+		kind := fs.String("kind", "quick", "tier")
+		feat := fs.String("feat", "plain", "plain|batch|merge")
+		_ = fs.Parse(args)
+		_ = kind
+		r := NewRng(*seed)
+		h := map[string]int{}
+		var lines []string
+		for i := 0; i < *n; i++ {
+			lines = append(lines, fmt.Sprintf("S %d", i))
+			lines = append(lines, GenCrashScript(r, *feat, h)...)
+		}
+		writeLines(*out, lines)
+		writeHistFile(*histp, h)
+	}
 	extraCommands["enginegen"] = func(args []string) {
 		fs := newFlagSet("enginegen")
 		seed := fs.Uint64("seed", 1, "seed")
